@@ -54,10 +54,12 @@ def plan(tier, seed):
             specs.append({'k': 'val', 'd': 'seq', 'kw': kw, 'b': name})
     for kw in SHORT_KW:
         for name, v in boundaries(refpack.SHORT_WIDTH[kw]):
-            specs.append({'k': 'val', 'd': 'short', 'kw': kw, 'b': name})
+            for st in ('lit', 'position', 'const', 'arith'):
+                specs.append({'k': 'val', 'd': 'short', 'kw': kw, 'b': name, 'st': st})
     for fmt in FMTS:
         for name, v in boundaries(refpack.FMT_WIDTH[fmt[1].lower()]):
-            specs.append({'k': 'val', 'd': 'pack', 'kw': fmt, 'b': name})
+            for st in ('lit', 'position', 'const', 'arith'):
+                specs.append({'k': 'val', 'd': 'pack', 'kw': fmt, 'b': name, 'st': st})
     specs.extend({'k': 'valr'} for _ in range(2000 if tier == 'quick' else 500000))
     specs.extend({'k': 'str'} for _ in range(4000 if tier == 'quick' else 1000000))
     specs.extend({'k': 'ib'} for _ in range(5000 if tier == 'quick' else 1500000))
@@ -77,19 +79,34 @@ def fmt_int(r, v):
     return bin(v) if v < (1 << 16) else hex(v)
 
 
+def spell_value(r, v, style):
+    """The same integer written as a literal, as %position(l0, V) (l0 is at address 0), through a constant, or as arithmetic."""
+    if style == 'position':
+        return '%%position(l0, %s)' % fmt_int(r, v)
+    if style == 'position-paren':
+        return '%%position(l0, %s)' % ('(%d)' % v)
+    if style == 'const':
+        return 'VALK'
+    if style == 'arith':
+        return '%d + %d' % (v - 7, 7) if r.random() < 0.5 else '(%d) * 1' % v
+    return fmt_int(r, v)
+
+
 def render(r, items, blob_written):
     lines = []
     for it in items:
         op = it['op']
+        if it.get('style') == 'const':
+            lines.append('VALK = %d' % it['value'])
         if op == 'label':
             lines.append(it['name'] + ':')
         elif op == 'seq':
             lines.append('%s %s' % (it['kw'], ' '.join(fmt_int(r, v) for v in it['values'])))
         elif op == 'short':
             v = it['value']
-            lines.append('%s %s' % (it['kw'], v[1] if isinstance(v, (list, tuple)) else fmt_int(r, v)))
+            lines.append('%s %s' % (it['kw'], v[1] if isinstance(v, (list, tuple)) else spell_value(r, v, it.get('style'))))
         elif op == 'pack':
-            lines.append('pack %s%s%s' % (it['fmt'], r.choice((' ', ', ')), fmt_int(r, it['value'])))
+            lines.append('pack %s%s%s' % (it['fmt'], r.choice((' ', ', ')), spell_value(r, it['value'], it.get('style'))))
         elif op == 'string':
             lines.append('string ' + it['text'])
         elif op == 'blob':
@@ -192,20 +209,25 @@ def make_scenario(spec, seed, idx):
                 vals = [r.randint(0, 100)] * r.randint(0, 2) + [v] + [r.randint(0, 100)] * r.randint(0, 2)
             item = {'op': 'seq', 'kw': kw, 'values': vals}
         elif d == 'short':
-            item = {'op': 'short', 'kw': kw, 'value': v}
+            item = {'op': 'short', 'kw': kw, 'value': v, 'style': r.choice(('lit', 'lit', 'position', 'position-paren', 'const', 'arith'))}
         else:
-            item = {'op': 'pack', 'fmt': kw, 'value': v}
+            item = {'op': 'pack', 'fmt': kw, 'value': v, 'style': r.choice(('lit', 'lit', 'position', 'position-paren', 'const', 'arith'))}
+        if spec.get('st') and 'style' in item:
+            item['style'] = spec['st']
         items = [{'op': 'label', 'name': 'l0'}, {'op': 'seq', 'kw': 'bytes', 'values': [0xAA]}, item, {'op': 'label', 'name': 'l1'},
                  {'op': 'seq', 'kw': 'bytes', 'values': [0x55]}]
-        text = '\n'.join(render(r, items, {})) + '\n'
+        eol = '\r\n' if r.random() < 0.15 else '\n'
+        text = eol.join(render(r, items, {})) + eol
         return {'kind': 'val', 'files': {'/w/proj/main.asm': text}, 'bins': {}, 'dirs': ['/w/proj'], 'main': '/w/proj/main.asm', 'inc_dirs': [],
-                'items': items, 'runs': [{'via': 'api', 'cwd': '/w/proj', 'compress': False}], 'meta': {'d': d, 'kw': kw, 'b': bname}}
+                'items': items, 'runs': [{'via': r.choice(('api', 'api', 'text')), 'cwd': '/w/proj', 'compress': False}],
+                'meta': {'d': d, 'kw': kw, 'b': bname, 'st': item.get('style', 'lit')}}
     if k == 'str':
         text, classes = rand_string(r)
         items = [{'op': 'label', 'name': 'l0'}, {'op': 'string', 'text': text}, {'op': 'label', 'name': 'l1'}, {'op': 'seq', 'kw': 'bytes', 'values': [0x55]}]
-        src = '\n'.join(render(r, items, {})) + '\n'
+        eol = '\r\n' if r.random() < 0.2 else '\n'
+        src = eol.join(render(r, items, {})) + eol
         return {'kind': 'str', 'files': {'/w/proj/main.asm': src}, 'bins': {}, 'dirs': ['/w/proj'], 'main': '/w/proj/main.asm', 'inc_dirs': [],
-                'items': items, 'runs': [{'via': r.choice(('api', 'api', 'cli')), 'cwd': '/w/proj', 'compress': False}], 'meta': {'classes': classes}}
+                'items': items, 'runs': [{'via': r.choice(('api', 'api', 'cli', 'text', 'text')), 'cwd': '/w/proj', 'compress': False}], 'meta': {'classes': classes}}
     # include_bytes placement scenarios
     main = '/w/proj/main.asm'
     inc_dirs = r.choice(([], ['/w/lib'], ['/w/lib', '/w/assets']))
@@ -338,6 +360,10 @@ def run_one(scen, files, run, log, faults=None):
     cwd = run['cwd']
     main = scen['main'] if run.get('main_abs', True) else posixpath.relpath(scen['main'], cwd)
     fs = asmsim.make_fs(files, scen['dirs'] + [cwd, '/w/out'], cwd=cwd, faults=copy.deepcopy(faults or []))
+    if run['via'] == 'text':
+        # the source handed over as text (read the way open() would: universal newlines are NOT applied by the caller)
+        out = asmsim.run_api(fs, {'target': scen['files'][scen['main']], 'compress': run['compress'], 'include_dirs': list(scen['inc_dirs'])}, log)
+        return out, fs
     if run['via'] == 'api':
         out = asmsim.run_api(fs, {'target': main, 'compress': run['compress'], 'include_dirs': list(scen['inc_dirs'])}, log)
         return out, fs
